@@ -4,17 +4,20 @@
 //	                               real Conn over loopback TCP, outcomes compared with the Lean model of the
 //	                               activeCall / closeNotify protocol run with one thread
 //	T3  `c34 stress <seed> <n>`    n concurrent scenarios in a separately built `-race` binary (race detector,
-//	                               deadlock watchdog, byte-stream preservation) — explored, not proved
+//	                               deadlock watchdog, byte-stream preservation) — explored, not proved. Scenario
+//	                               kinds (by id mod 6): graceful, chaos, keyupdate (rig/ku.go), deadline (rig/dl.go)
 package c34
 
 import (
 	"bytes"
 	"fmt"
+	"hash/fnv"
 	"os"
 	"os/exec"
 	"path/filepath"
 	"regexp"
 	"runtime"
+	"sort"
 	"strings"
 	"sync"
 	"time"
@@ -27,8 +30,11 @@ func init() {
 	zv.Register(&zv.Prop{
 		ID: "C34", Topic: "c34", Gen: gen, Exec: execLine, Timeout: 900 * time.Second,
 		Rule: "seq lines: every sequence over {Handshake,Write,Close,CloseWrite} up to length 4 (quick) / 6 (thorough) for TLS 1.2 " +
-			"and 1.3 plus random longer ones; stress lines: batches of seeded concurrent scenarios (graceful / chaos, TLS 1.2 / 1.3) " +
-			"run under the race detector; non-trivial = sequence containing a Close or CloseWrite, every stress batch",
+			"and 1.3 plus random longer ones; stress lines: batches of 12 seeded concurrent scenarios run under the race detector: 2 graceful, " +
+			"6 chaos (TLS 1.2 / 1.3), 2 key-update (TLS 1.3: both ends initiate KeyUpdate with/without update_requested at random points " +
+			"while both ends read and write; optional slow link for the KeyUpdate record) and 2 deadline scenarios (TLS 1.2 / 1.3: a second " +
+			"goroutine fires and clears SetReadDeadline/SetDeadline while a Read is blocked at a chosen split point of a record delivered in " +
+			"pieces); non-trivial = sequence containing a Close or CloseWrite, every stress batch",
 	})
 }
 
@@ -141,7 +147,11 @@ func buildRace() {
 		raceErr = "cannot locate the harness source directory (go.mod) to build the -race runner"
 		return
 	}
-	final := filepath.Join(os.TempDir(), "zv-c34-racecmd")
+	// one binary per (harness source tree, zcrypto tree): runs of other workspaces on the same machine must not
+	// replace the runner under our feet (each scenario batch executes the path anew)
+	h := fnv.New32a()
+	h.Write([]byte(d + "|" + os.Getenv("ZV_REPO")))
+	final := filepath.Join(os.TempDir(), fmt.Sprintf("zv-c34-racecmd-%08x", h.Sum32()))
 	out := fmt.Sprintf("%s.%d", final, os.Getpid())
 	cmd := exec.Command("go", "build", "-race", "-tags", "verif", "-o", out, "./props/c34/racecmd")
 	cmd.Dir = d
@@ -191,7 +201,12 @@ func execStress(kind, a, b string) zv.Out {
 	if raceErr != "" {
 		return zv.Out{Viol: raceErr, Tags: []string{"race-build-failed"}}
 	}
-	procs := []string{"2", "4", "8", "1"}[len(a)%4]
+	// GOMAXPROCS of the runner: a function of the batch seed, spread over 2 / 4 / 8 / 1
+	dsum := 0
+	for _, ch := range a {
+		dsum += int(ch)
+	}
+	procs := []string{"2", "4", "8", "1"}[dsum%4]
 	args := []string{"batch", a, b}
 	if kind == "one" {
 		args = []string{"one", a}
@@ -199,11 +214,12 @@ func execStress(kind, a, b string) zv.Out {
 	so, se, werr, to := runRace(args, procs, 600*time.Second)
 	tags := []string{"stress-batch", "GOMAXPROCS=" + procs}
 	tags = append(tags, fmt.Sprintf("scenarios-ok=%s", bucket(strings.Count(so, "\nOK ")+btoi(strings.HasPrefix(so, "OK ")))))
-	for _, m := range []string{"graceful 12", "graceful 13", "chaos 12", "chaos 13"} {
+	for _, m := range []string{"graceful 12", "graceful 13", "chaos 12", "chaos 13", "keyupdate 13", "deadline 12", "deadline 13"} {
 		if strings.Contains(so, " "+m+" ") {
 			tags = append(tags, "ran:"+strings.Replace(m, " ", "/tls", 1))
 		}
 	}
+	tags = append(tags, modeTags(so)...)
 	if i := strings.Index(se, "WARNING: DATA RACE"); i >= 0 {
 		scen := "?"
 		if ms := scenRe.FindAllStringSubmatch(se[:i], -1); len(ms) > 0 {
@@ -241,6 +257,53 @@ func execStress(kind, a, b string) zv.Out {
 		return zv.Out{Viol: "stress runner failed: " + fmt.Sprint(werr) + " " + tail(so, 400) + "\n" + tail(se, 1500), Tags: append(tags, "runner-failed")}
 	}
 	return zv.Out{Tags: tags}
+}
+
+var (
+	kuRe = regexp.MustCompile(`(?m)^OK \d+ keyupdate .* keyupdates=(\d+) requested=(\d+) slowlink=(\d+)`)
+	dlRe = regexp.MustCompile(`(?m)^OK \d+ deadline .* timeouts=(\d+) gates=\[([\d ]+)\] gatetimeouts=\[([\d ]+)\] spans=(\d+) alertgates=(\d+) keyupdates=(\d+)`)
+)
+
+// modeTags: what the key-update and deadline scenarios of a batch actually exercised (evidence histogram).
+func modeTags(so string) []string {
+	set := map[string]bool{}
+	for _, m := range kuRe.FindAllStringSubmatch(so, -1) {
+		if m[1] != "0" {
+			set["keyupdate:sent"] = true
+		}
+		if m[2] != "0" {
+			set["keyupdate:update_requested-answered-under-concurrent-writes"] = true
+		}
+		if m[3] != "0" {
+			set["keyupdate:slow-link-for-the-KeyUpdate-record"] = true
+		}
+	}
+	classes := []string{"record-boundary", "inside-header", "after-header", "inside-body", "before-last-byte"}
+	for _, m := range dlRe.FindAllStringSubmatch(so, -1) {
+		if m[1] != "0" {
+			set["deadline:reader-saw-timeout"] = true
+		}
+		if m[4] != "0" {
+			set["deadline:piece-spans-into-next-record-header"] = true
+		}
+		if m[5] != "0" {
+			set["deadline:look-ahead-alert-record-held-back"] = true
+		}
+		if m[6] != "0" {
+			set["deadline:with-key-updates"] = true
+		}
+		for i, v := range strings.Fields(m[3]) {
+			if v != "0" && i < len(classes) {
+				set["deadline:fired-while-Read-blocked:"+classes[i]] = true
+			}
+		}
+	}
+	var out []string
+	for k := range set {
+		out = append(out, k)
+	}
+	sort.Strings(out)
+	return out
 }
 
 func btoi(b bool) int {
